@@ -1138,7 +1138,6 @@ var _ = late(func() {
 		}})
 })
 
-
 // symDeref: symOf, with a leaf that names a field of a local struct variable which is assigned exactly once (tooSoon :=
 // DeadlineTooSoonError{remaining: …, d: d}) replaced by the expression assigned to that field.
 func symDeref(v ssa.Value, env provEnv) *sx {
@@ -1166,7 +1165,6 @@ func symDeref(v ssa.Value, env provEnv) *sx {
 	}
 	return symOf(v, env)
 }
-
 
 // periodRole: p is one of exactly two time.Duration parameters of its function: the first is the period d, the second the
 // jitter (the order NewJitterTicker, Reset - and a schedule that is handed the period - share); "" otherwise.
